@@ -290,4 +290,17 @@ class RefEvaluator:
             args = [np.broadcast_to(a, tuple(axlen[d] for d in acc))
                     for acc, a in zip(expr.access_descriptors, args)]
             return np.einsum(",".join(ins) + "->" + out, *args)
+        from pytato.array import CSRMatmul
+        if isinstance(expr, CSRMatmul):
+            m = expr.matrix
+            vals = self(m.elem_values)
+            cols = self(m.elem_col_indices)
+            rows = self(m.row_starts)
+            x = self(expr.array)
+            out = np.zeros((len(rows) - 1, *x.shape[1:]),
+                           dtype=np.result_type(vals.dtype, x.dtype))
+            for i in range(len(rows) - 1):
+                for k in range(int(rows[i]), int(rows[i + 1])):
+                    out[i] = out[i] + vals[k] * x[int(cols[k])]
+            return out
         raise NotImplementedError(type(expr).__name__)
